@@ -91,39 +91,62 @@ Definition pad_weights (w : list Q) (wing : nat) : list Q :=
   let right := mul_lists (skipn (n - wing) p) (rev (rolloff wing)) in
   left ++ mid ++ right.
 
-(* one iteration of convolve_weighted; None = some normaliser is exactly zero *)
-Fixpoint div_lists (d n : list Q) : option (list Q) :=
+(* convolve_weighted.  A value is [None] when the code's float is not finite: a
+   normaliser N that is exactly zero gives 0/0 = NaN or x/0 = inf, and every
+   window that covers a non-finite value is non-finite again (NaN and inf are
+   absorbing under products, sums and quotients), so [None] propagates exactly
+   like that.  The weights themselves stay finite. *)
+Definition windows_g {A} (k : nat) (y : list A) (count : nat) : list (list A) :=
+  map (fun i => firstn k (skipn i y)) (seq 0 count).
+
+Fixpoint all_some (l : list (option Q)) : option (list Q) :=
+  match l with
+  | [] => Some []
+  | Some x :: t => match all_some t with Some r => Some (x :: r) | None => None end
+  | None :: _ => None
+  end.
+
+Definition conv_same_opt (window : list Q) (y : list (option Q)) : list (option Q) :=
+  let m := length window in
+  let off := Nat.div m 2 in
+  let yz := repeat (Some 0) (m - 1 - off) ++ y ++ repeat (Some 0) off in
+  map (fun seg => match all_some seg with Some s => Some (qdot (rev window) s) | None => None end)
+      (windows_g m yz (length y)).
+
+Fixpoint mul_opt (w : list Q) (y : list (option Q)) : list (option Q) :=
+  match w, y with
+  | a :: w', Some b :: y' => Some (qmul a b) :: mul_opt w' y'
+  | _ :: w', None :: y' => None :: mul_opt w' y'
+  | _, _ => []
+  end.
+
+Fixpoint div_opt (d : list (option Q)) (n : list Q) : list (option Q) :=
   match d, n with
-  | x :: d', y :: n' =>
-      if qeq_b y 0 then None
-      else match div_lists d' n' with Some r => Some (qdiv x y :: r) | None => None end
-  | _, _ => Some []
+  | Some x :: d', y :: n' => (if qeq_b y 0 then None else Some (qdiv x y)) :: div_opt d' n'
+  | None :: d', _ :: n' => None :: div_opt d' n'
+  | _, _ => []
   end.
 
-Fixpoint convolve_weighted_iter (n_iter : nat) (win y w : list Q) : option (list Q * list Q) :=
+Fixpoint convolve_weighted_iter (n_iter : nat) (win : list Q) (y : list (option Q)) (w : list Q)
+  : list (option Q) * list Q :=
   match n_iter with
-  | O => Some (y, w)
+  | O => (y, w)
   | S k =>
-      let D := conv_same win (mul_lists w y) in
+      let D := conv_same_opt win (mul_opt w y) in
       let N := conv_same win w in
-      match div_lists D N with
-      | Some y' => convolve_weighted_iter k win y' (conv_same win w)
-      | None => None
-      end
+      convolve_weighted_iter k win (div_opt D N) (conv_same win w)
   end.
 
-Definition convolve_weighted (window signal weights : list Q) (n_iter : nat) : option (list Q * list Q) :=
-  convolve_weighted_iter n_iter (normalize window) signal weights.
+Definition convolve_weighted (window signal weights : list Q) (n_iter : nat) : list (option Q) * list Q :=
+  convolve_weighted_iter n_iter (normalize window) (map Some signal) weights.
 
 (* ---- kaiser --------------------------------------------------------------- *)
 Definition kaiser_unweighted (x : list Q) (wing : nat) (window : list Q) : list Q :=
   convolve_unweighted window (pad_array x wing) wing 1.
 
-Definition kaiser_weighted (x w : list Q) (wing : nat) (window : list Q) : option (list Q) :=
-  match convolve_weighted window (pad_array x wing) (pad_weights w wing) 1 with
-  | Some (y, _) => Some y        (* the weighted branch does not un-pad *)
-  | None => None
-  end.
+(* the weighted branch does not un-pad *)
+Definition kaiser_weighted (x w : list Q) (wing : nat) (window : list Q) : list (option Q) :=
+  fst (convolve_weighted window (pad_array x wing) (pad_weights w wing) 1).
 
 (* ---- savgol --------------------------------------------------------------- *)
 Record savgol_par := { sg_wing : Z; sg_window : Z; sg_order : Z; sg_iter : Z }.
@@ -154,11 +177,8 @@ Definition savgol_unweighted (x : list Q) (wing n_iter : nat) (coeffs : list Q)
   (el er : list (list Q)) : list Q :=
   unpad (iterate n_iter (sg_pass coeffs el er) (pad_array x wing)) wing.
 
-Definition savgol_weighted (x w : list Q) (wing n_iter : nat) (coeffs : list Q) : option (list Q) :=
-  match convolve_weighted coeffs (pad_array x wing) (pad_weights w wing) n_iter with
-  | Some (y, _) => Some (unpad y wing)
-  | None => None
-  end.
+Definition savgol_weighted (x w : list Q) (wing n_iter : nat) (coeffs : list Q) : list (option Q) :=
+  unpad (fst (convolve_weighted coeffs (pad_array x wing) (pad_weights w wing) n_iter)) wing.
 
 (* ---- top-level functions (short-signal guards, wing from the width) ------- *)
 Definition kaiser (x : list Q) (width : Q) (frac_oracle : Z) (window : list Q) : list Q + wing_result :=
@@ -192,8 +212,8 @@ Definition savgol (x : list Q) (total_width : option Q) (frac_oracle window_widt
        end.
 
 Definition savgol_w (x w : list Q) (total_width : option Q) (frac_oracle window_width order n_iter : Z)
-  (coeffs : list Q) : option (list Q) + wing_result :=
-  if (Z.of_nat (length x) <? SAVGOL_MIN_LEN)%Z then inl (Some x)
+  (coeffs : list Q) : list (option Q) + wing_result :=
+  if (Z.of_nat (length x) <? SAVGOL_MIN_LEN)%Z then inl (map Some x)
   else match savgol_plan (Z.of_nat (length x)) total_width frac_oracle window_width order n_iter with
        | inl p =>
            if Z.eqb (Z.of_nat (length coeffs)) (sg_window p) && Nat.eqb (length x) (length w)
@@ -201,3 +221,20 @@ Definition savgol_w (x w : list Q) (total_width : option Q) (frac_oracle window_
            else inr WingOracleBad
        | inr r => inr r
        end.
+
+(* ---- guess_window_size ---------------------------------------------------- *)
+(* the scale estimate (a square root) and len(x) ** (4/5) are oracle numbers: the
+   code's own floats; what is modelled is the rounding and the clamping *)
+Definition guess_width_raw (sd pow45 : Q) : Q := qmul (qmul GUESS_FACTOR sd) pow45.
+Definition guess_window_size (n : Z) (sd pow45 : Q) : Z :=
+  Z.min n (Z.max GUESS_MIN_WIDTH (round_half_even (guess_width_raw sd pow45))).
+
+(* ---- check_inputs: wing, padded signal, padded and rolled-off weights ------ *)
+Definition check_inputs (x : list Q) (weights : option (list Q)) (width : Q) (frac_oracle : Z)
+  : (Z * list Q * option (list Q)) + wing_result :=
+  match width2wing (Z.of_nat (length x)) width frac_oracle with
+  | WingOk w =>
+      let wing := Z.to_nat w in
+      inl (w, pad_array x wing, match weights with Some ws => Some (pad_weights ws wing) | None => None end)
+  | r => inr r
+  end.
